@@ -186,7 +186,8 @@ GOTRANS = {"gocircuit": "GoCircuit", "gohopener": "GoHOpener", "gohcloser": "GoH
            "gorunstats": "GoRunStats", "gofbstats": "GoFbStats", "goslo": "GoSlo", "gotimedcheck": "GoTimedCheck", "golivecfg": "GoLiveCfg",
            "gofanrun": "GoFanRun", "gofanfb": "GoFanFb", "gofancirc": "GoFanCirc", "gostream": "GoStream", "gosetcfg": "GoSetCfg",
            "gorollingbuckets": "GoRollingBuckets", "gorollingcounter": "GoRollingCounter", "gomanager": "GoManager", "gosorteddurations": "GoSortedDurations",
-           "gorollingbucketsp": "GoRollingBucketsP", "gorollingpercentile": "GoRollingPercentile", "godurationsbucket": "GoDurationsBucket"}
+           "gorollingbucketsp": "GoRollingBucketsP", "gorollingpercentile": "GoRollingPercentile", "godurationsbucket": "GoDurationsBucket",
+           "goneveropens": "GoNeverOpens", "gonevercloses": "GoNeverCloses", "gohopenercfg": "GoHOpenerCfg", "gohclosercfg": "GoHCloserCfg", "goslocfg": "GoSloCfg"}
 
 def regenerate(name):
     """re-run an extractor on REPO's working tree and (re)write lean/Generated/<file> if it changed.
